@@ -62,3 +62,49 @@ Example C03_node_premises_satisfiable :
   ~ (exists D, length D = 1%nat /\ node_decomposition nxV nxE nxfv [3%N] D).
 Proof. exact nx_premises. Qed.
 Print Assumptions C03_node_premises_satisfiable.
+
+(* ---- audit addition (agent-c19): the SOLVER-SPECIFICATION hypotheses of C03_node_minflowdecomp_returns_the_minimum are jointly
+   satisfiable with the caller-input premises of the Example above.  On the diamond (node 3 ignored) the k-model is feasible exactly
+   for k >= 2 (k = 0: the empty decomposition explains 0 <> 5 on node 1; k = 1: Example above; k >= 2: pad nxD with zero-weight
+   copies of 1,2,4), so feasible := (2 <=? k), the search started at lb = 1 sees Infeasible, Optimal, ..., and the theorem yields
+   kopt = 2.  (For an arbitrary input the existence of such a `feasible` is the decidability of "the k-model has a solution" --
+   what a correct solver provides; the engine checks the reported statuses against the certificate at run time.) *)
+Lemma C03_node_pad (n : nat) (v : node) :
+  node_explained (repeat ([1; 2; 4]%N, 0%Z) n ++ nxD) v = node_explained nxD v.
+Proof.
+  assert (Z0 : forall D, node_explained (([1; 2; 4]%N, 0%Z) :: D) v = node_explained D v)
+    by (intros D; unfold node_explained, Peel.sumL; cbn [fold_right fst snd]; lia).
+  induction n as [|n IH]; [reflexivity|]. cbn [repeat app]. rewrite Z0. exact IH.
+Qed.
+Print Assumptions C03_node_pad.
+
+Example C03_node_solver_hypotheses_satisfiable :
+  let feasible := fun k => (2 <=? k)%nat in
+  let sts := map (fun k => mkraw (if feasible k then Optimal else Infeasible) false) (seq 1 (length (expE nxV nxE))) in
+  (forall k, feasible k = true <-> exists a, sat a (encode_kfd (node_inst nxV nxE 100 101 nxfv [3%N] 5 k))) /\
+  (forall i, (i < S (length (expE nxV nxE)) - 1)%nat -> exists x, nth_error sts i = Some x /\
+             status_of x = if feasible (1 + i)%nat then Optimal else Infeasible) /\
+  (forall k, (k < 1)%nat -> feasible k = false) /\
+  so_res (mpc_solve true 1 (S (length (expE nxV nxE))) sts) = Solved 2.
+Proof.
+  cbn zeta.
+  destruct C03_node_premises_satisfiable as (NDV & NDE & HE & Htopo & Hincl & Hs & Ht & Hst & Hmax & HD & Hlen & Hno1).
+  split; [|split; [|split]].
+  - intros k.
+    rewrite (C03_node_k_model_feasible_iff nxV nxE 100 101 nxV nxfv [3%N] 5 Hs Ht Hst HE NDV NDE Htopo Hincl Hmax ltac:(lia) k).
+    rewrite Nat.leb_le. split.
+    + intros Hk. exists (repeat ([1; 2; 4]%N, 0%Z) (k - 2) ++ nxD). split; [rewrite app_length, repeat_length; cbn; lia|].
+      destruct HD as [HF Hsum]. split.
+      * apply Forall_app. split; [|exact HF]. apply Forall_forall. intros pw Hpw. apply repeat_spec in Hpw. subst pw. cbn [fst snd].
+        split; [|lia]. inversion HF as [|? ? [R _] _]; subst. exact R.
+      * intros v Hv Hni. rewrite C03_node_pad. exact (Hsum v Hv Hni).
+    + intros (D & Hl & HDk). destruct k as [|[|k]]; [| |lia].
+      * destruct D; [|discriminate Hl]. destruct HDk as [_ Hsum].
+        pose proof (Hsum 1%N ltac:(cbn; tauto) ltac:(cbn; intuition discriminate)) as H1. discriminate H1.
+      * exfalso. apply Hno1. exists D. split; assumption.
+  - intros i Hi. change (length (expE nxV nxE)) with 8%nat in *.
+    do 8 (destruct i as [|i]; [eexists; split; reflexivity|]). lia.
+  - intros k Hk. destruct k; [reflexivity|lia].
+  - vm_compute. reflexivity.
+Qed.
+Print Assumptions C03_node_solver_hypotheses_satisfiable.
